@@ -78,7 +78,13 @@ def _values():
     # 'no precoder' next to named ones: None is a value like any other
     withnone = st.lists(st.sampled_from([None, "MRT", "ZF", "x"]),
                         min_size=2, max_size=4, unique=True)
+    # compound values (antennas = (2, 2), (2, 4), ...): values that share
+    # components with each other
+    tups = st.lists(st.sampled_from([[2, 2], [2, 4], [4, 4], [4, 2], [1, 2],
+                                     [2, 1]]),
+                    min_size=2, max_size=4, unique_by=tuple)
     return st.one_of(st.tuples(st.just("list"), ints),
+                     st.tuples(st.just("tuples"), tups),
                      st.tuples(st.just("list"), withnone),
                      st.tuples(st.just("list"), dups),
                      st.tuples(st.just("array"), dups),
@@ -137,6 +143,10 @@ def _cfg(draw, tier, with_file=None):
             [[vd, a] for a in range(m * (rep_max + 2)) if a % m != m - 1]
     if with_file is None:
         with_file = draw(st.booleans())
+    if "tuples" in container.values():
+        # (tuples come back as lists from a .json partial file; files are the
+        # subject of C07/C17)
+        with_file = False
     if with_file and stop["kind"] == "skipped":
         # (the skipped count is not carried over by partial-result files)
         with_file = False
@@ -542,7 +552,10 @@ def _check_lookups(case, cfg, names, combos, runner, expected, tags, ctx):
             if mask[i % 3]:
                 vals = dict(cfg["unpacked"])[n]
                 fixed_d[n] = vals[picks[i % 3] % len(vals)]
-        if any(list(dict(cfg["unpacked"])[n]).count(val) > 1
+                if isinstance(fixed_d[n], list):
+                    fixed_d[n] = tuple(fixed_d[n])
+        if any([tuple(x) if isinstance(x, list) else x
+                for x in dict(cfg["unpacked"])[n]].count(val) > 1
                for n, val in fixed_d.items()):
             # 'the' entry of a value listed twice is not defined
             continue
